@@ -173,6 +173,9 @@ def gen_sequence(rng, quick=True):
     rr_ = rng.random()
     ratio = float(10 ** (rng.uniform(-2, 1) if rr_ < 0.7 else rng.uniform(1, 3) if rr_ < 0.9 else rng.uniform(3, 5)))
     x0 = rng.standard_normal(n) * math.sqrt(scale_p) * ratio
+    x0_int = bool(rng.random() < 0.08)
+    if x0_int:
+        x0 = np.round(x0)  # whole-number state handed over as an integer array (np.array([7000, -1200, ...]))
     n_steps = int(rng.integers(1, 21)) if not quick or rng.random() < 0.4 else int(rng.integers(1, 8))
     # truth + free-running reference covariance (only used to pick realistic magnitudes for R and y)
     l0 = np.linalg.cholesky(p0)
@@ -205,7 +208,7 @@ def gen_sequence(rng, quick=True):
             if kf.min_eig_sym(pr) <= 0:
                 pr = pr + np.eye(n) * (1e-12 * _n2(pr) - kf.min_eig_sym(pr))
         steps.append({"obs": obs})
-    return {"kind": "seq", "boundary": rng.random() < 0.4, "n": n, "alpha": alpha, "beta": beta, "kappa": kappa, "resample": resample, "fkind": fkind, "qkind": qkind,
+    return {"kind": "seq", "x0_int": x0_int, "boundary": rng.random() < 0.4, "n": n, "alpha": alpha, "beta": beta, "kappa": kappa, "resample": resample, "fkind": fkind, "qkind": qkind,
             "x0": [float(v) for v in x0], "P0": _L(p0), "Q": _L(q), "F": [_L(f) for f in fs], "steps": steps}
 
 
@@ -340,7 +343,9 @@ def run_sequence(ctx, spec, stats=None):
 
     dyn = st.linear_dynamics(fs[0])
     try:
-        f = _call(ctx, wit(0), "constructor", st.make_ukf, x0, p0, dyn, q, resample, alpha, beta, kappa)
+        f = _call(ctx, wit(0), "constructor", st.make_ukf, x0.astype(np.int64) if spec.get("x0_int") else x0, p0, dyn, q, resample, alpha, beta, kappa)
+        if spec.get("x0_int"):
+            ctx.count("sequences_with_integer_typed_state")
     except _FilterRaised:
         return stats
     # ---- weights ----------------------------------------------------------------------------------
